@@ -48,6 +48,10 @@ void h_mode(int m)
     if (m == 0) MemoryLeakWarningPlugin::turnOffNewDeleteOverloads();
     else if (m == 1) MemoryLeakWarningPlugin::turnOnDefaultNotThreadSafeNewDeleteOverloads();
     else MemoryLeakWarningPlugin::turnOnThreadSafeNewDeleteOverloads();
+    if (m == 3) {       // thread-safe mode that went through a save/disable/restore bracket (as the runner does around its own allocations)
+        MemoryLeakWarningPlugin::saveAndDisableNewDeleteOverloads();
+        MemoryLeakWarningPlugin::restoreNewDeleteOverloads();
+    }
 }
 // the 11 entry points of the overload table
 void* h_entry(int kind, void* p)
